@@ -1847,6 +1847,10 @@ static bool can_combine_comment(Chunk *pc, cmt_reflow &cmt)
       next = next->GetNext();
 
       if (  next->Is(pc->GetType())
+            // a C comment that the end of the file cuts short has no closing to strip
+         && (  next->IsNot(CT_COMMENT)
+            || (  next->Len() >= 4
+               && next->GetStr().startswith("*/", next->Len() - 2)))
          && (  (  next->GetColumn() == 1
                && pc->GetColumn() == 1)
             || (  next->GetColumn() == cmt.base_col
